@@ -3,39 +3,35 @@ From Coq Require Import List NArith ZArith Bool Lia.
 From PV Require Import Lib.ListX Model.Escape Model.SqlLex Model.Literal Model.FromText Proofs.EscapeProofs Proofs.LiteralProofs.
 Import ListNotations.
 
-(* the literal a kept cell becomes *)
-Theorem json_cell_literal v : json_cell_kept v = true ->
-  match v with
-  | JNull => map_json_primitive v = RNull
-  | JBool b => map_json_primitive v = RBool b
-  | JInt z => (map_json_primitive v = RInt z /\ (I64_MIN_Z <= z <= I64_MAX_Z)%Z) \/
-              (map_json_primitive v = RFloat /\ (z < I64_MIN_Z \/ U64_MAX_Z < z)%Z)
-  | JReal => map_json_primitive v = RFloat
-  | JString s => map_json_primitive v = RString s
-  | JArray | JObject => False
-  end.
+(* FULL STRENGTH (since fix d86674e): whatever literal an accepted cell becomes is the literal of its value; a cell is
+   rejected exactly when it is an integer in (i64::MAX, u64::MAX], an array or an object *)
+Theorem json_cell_literal v l : map_json_primitive v = Some l -> json_literal_of v = Some l.
 Proof.
-  destruct v as [|b|z| |s| |]; cbn [json_cell_kept map_json_primitive]; try reflexivity; try discriminate.
-  intro H. apply negb_true_iff in H.
-  destruct ((I64_MIN_Z <=? z)%Z && (z <=? I64_MAX_Z)%Z) eqn:A.
-  - left. apply andb_true_iff in A as [A1 A2]. apply Z.leb_le in A1, A2. split; [reflexivity | lia].
-  - rewrite H. right. split; [reflexivity|].
-    apply andb_false_iff in A. apply andb_false_iff in H.
-    destruct A as [A|A]; [apply Z.leb_gt in A; lia|]. apply Z.leb_gt in A.
-    destruct H as [H|H]; [apply Z.ltb_ge in H; lia | apply Z.leb_gt in H; lia].
+  destruct v as [|b|z| |s| |]; cbn [map_json_primitive json_literal_of]; try (intro H; exact H); try discriminate.
+  destruct ((I64_MIN_Z <=? z)%Z && (z <=? I64_MAX_Z)%Z); [intro H; exact H|].
+  destruct ((I64_MAX_Z <? z)%Z && (z <=? U64_MAX_Z)%Z); [discriminate | intro H; exact H].
 Qed.
 
-(* a string cell, end to end: whatever the dialect's backslash flag, the text emitted for it is read back as the cell's
-   value by a reader that fits the flag, in every context (the string theorems of Props/C08.v apply unchanged) *)
+Theorem json_cell_rejected_iff v : map_json_primitive v = None <->
+  match v with JInt z => (I64_MAX_Z < z <= U64_MAX_Z)%Z | JArray | JObject => True | _ => False end.
+Proof.
+  destruct v as [|b|z| |s| |]; cbn [map_json_primitive]; try (split; [discriminate | contradiction]); try tauto.
+  destruct ((I64_MIN_Z <=? z)%Z && (z <=? I64_MAX_Z)%Z) eqn:A.
+  - apply andb_true_iff in A as [A1 A2]. apply Z.leb_le in A1, A2. unfold I64_MIN_Z, I64_MAX_Z, U64_MAX_Z in *. split; [discriminate | lia].
+  - destruct ((I64_MAX_Z <? z)%Z && (z <=? U64_MAX_Z)%Z) eqn:B.
+    + apply andb_true_iff in B as [B1 B2]. apply Z.ltb_lt in B1. apply Z.leb_le in B2. split; [intros _; lia | reflexivity].
+    + split; [discriminate|]. intros [H1 H2]. apply andb_false_iff in B as [B|B]; [apply Z.ltb_ge in B | apply Z.leb_gt in B]; lia.
+Qed.
+
 Theorem json_string_cell_roundtrip d sq s :
-  exists t, emit_rlit sq (bs_escapes d) (map_json_primitive (JString s)) = Some t /\ sql_lex d t = [TString s].
-Proof. eexists. split; [reflexivity|]. apply literal_string_roundtrip. Qed.
+  exists l t, map_json_primitive (JString s) = Some l /\ emit_rlit sq (bs_escapes d) l = Some t /\ sql_lex d t = [TString s].
+Proof. eexists _, _. split; [reflexivity|]. split; [reflexivity|]. apply literal_string_roundtrip. Qed.
 
 Theorem json_int_cell_roundtrip d sq bs z : (I64_MIN_Z <= z <= I64_MAX_Z)%Z ->
-  exists t, emit_rlit sq bs (map_json_primitive (JInt z)) = Some t /\ int_of_tokens (sql_lex d t) = Some z.
+  exists l t, map_json_primitive (JInt z) = Some l /\ emit_rlit sq bs l = Some t /\ int_of_tokens (sql_lex d t) = Some z.
 Proof.
   intro H. cbn [map_json_primitive].
   replace ((I64_MIN_Z <=? z)%Z && (z <=? I64_MAX_Z)%Z) with true
     by (symmetry; apply andb_true_iff; split; apply Z.leb_le; lia).
-  eexists. split; [reflexivity|]. apply int_roundtrip.
+  eexists _, _. split; [reflexivity|]. split; [reflexivity|]. apply int_roundtrip.
 Qed.
